@@ -735,7 +735,7 @@ pub fn main(ctx: &Ctx) {
                 max_shrink_iters: 150,
                 limits: Limits { cpu_s: 30, wall_s: 180, as_bytes: 4 << 30 },
                 meta: Meta {
-                    rule: "2-4 participants with domain ids in {0,1} and domain tags in {\"\", \"a\"} (the factory configuration is changed between creations), each with a wall clock offset of 0, +-7 s, +-200 s or +-1 h against the others (visible in its INFO_TS), announcement interval 0.5 s or 5 s, announcements lost/delayed/duplicated by a fault tape and optionally cross-delivered between domains, then a healed network; oracle: same (domain, tag) => mutual discovery within 3 announcement periods, different => never listed; a silently partitioned participant is still listed 500 ms before last-datagram + 100 s lease and gone 70 ms after it; an ignored participant is not listed 3 periods later; non-trivial = an isolation pair, a lease boundary, an ignore or an announcement fault was exercised; distinct = hash of the case",
+                    rule: "2-4 participants with domain ids in {0,1} and domain tags in {\"\", \"a\"} (the factory configuration is changed between creations), each with a wall clock offset of 0, +-7 s, +-200 s or +-1 h against the others (visible in its INFO_TS), announcement interval 0.5 s or 5 s, announcements lost/delayed/duplicated by a fault tape and optionally cross-delivered between domains, then a healed network; oracle: same (domain, tag) => mutual discovery within 3 announcement periods, different => never listed; a silently partitioned participant is still listed 500 ms before last-datagram + 100 s lease and gone 70 ms after it; an ignored participant is not listed 3 periods later, nor after it was deleted and a delayed copy of one of its announcements arrived; non-trivial = an isolation pair, a lease boundary, an ignore or an announcement fault was exercised; distinct = hash of the case",
                     assumptions: &[
                         "dust-dds participants always announce a 100 s lease; other lease values are not exercised",
                         "lease reference instant = arrival of the last datagram (of any kind) from the silent participant, taken from the simulated network",
@@ -1260,7 +1260,7 @@ pub fn c17_strategy() -> BoxedStrategy<C17Case> {
         any::<bool>(),
         prop::collection::vec(prop_oneof![1 => Just(0u16), 2 => any::<u16>()], 0..60),
         prop::option::weighted(0.5, (0u8..4, 0u16..12_000)),
-        prop::option::weighted(0.3, (0u8..4, 0u8..4)),
+        prop::option::weighted(0.5, (0u8..4, 0u8..4)),
     )
         .prop_map(|(participants, interval, cross_domain, tape, crash, ignore)| C17Case { participants, interval, cross_domain, tape, crash, ignore })
         .boxed()
@@ -1444,6 +1444,44 @@ async fn c17_scenario(c: C17Case) -> C17Obs {
                         format!("participant {y} still lists silent participant {x} {} ms after the last datagram from it (lease 100 s + one 50 ms worker period)", (exec::now_ns() - t0) / 1_000_000),
                     ));
                     return o;
+                }
+            }
+        }
+    }
+    // an ignored participant deletes itself; a delayed copy of one of its old announcements arrives afterwards
+    // (datagrams may be delayed and duplicated): it is still ignored
+    if let Some((who, whom)) = c.ignore {
+        let (who, whom) = (who as usize % n, whom as usize % n);
+        let crashed = c.crash.map(|(x, _)| x as usize % n);
+        if who != whom && same(who, whom) && crashed != Some(whom) && crashed != Some(who) {
+            let old_announcement = with_world(|w| {
+                w.net
+                    .log
+                    .iter()
+                    .rev()
+                    .find(|r| {
+                        r.from == whom
+                            && r.class == crate::net::Class::MetaMulticast
+                            && vcore::wire::parse(&r.data)
+                                .map(|m| m.subs.iter().any(|s| matches!(&s.sub, vcore::wire::Sub::Data { writer, .. } if *writer == [0, 1, 0, 0xc2])))
+                                .unwrap_or(false)
+                    })
+                    .map(|r| r.data.to_vec())
+            });
+            if let Some(bytes) = old_announcement {
+                if f.delete_participant(&ps[whom]).await.is_ok() {
+                    classes.insert("ignored_participant_deleted_then_old_announcement_replayed".to_string());
+                    exec::sleep_ms(interval_ms + 500).await;
+                    crate::net::inject(who, bytes);
+                    exec::sleep_ms(500).await;
+                    let list = ps[who].get_discovered_participants().await.unwrap_or_default();
+                    if list.contains(&handles[whom]) {
+                        o.verdict = Some((
+                            "C17:ignored-participant-listed:after-its-deletion-and-a-delayed-announcement".into(),
+                            format!("participant {who} ignored participant {whom}; {whom} was deleted and a delayed copy of one of its announcements arrived: {who} lists it again"),
+                        ));
+                        return o;
+                    }
                 }
             }
         }
